@@ -159,3 +159,34 @@ Theorem C12_sharded_length_needs_every_shard : forall size lg, permitted size lg
           fst (shard_length fault root) = Ok (N.of_nat (length entries)) /\ Permutation (snd (shard_length fault root)) shards).
 Proof. exact sharded_length_under_faults. Qed.
 Print Assumptions C12_sharded_length_needs_every_shard.
+
+(* reference-written shards (any history of Sets and Removes, Hamt/RefModel.v): a lookup whose hash path crosses an unavailable
+   shard returns that shard's load error, never not-found; with the path available the answer is the abstract directory's *)
+From UV Require Import Hamt.RefModel Hamt.RefHistory.
+Theorem C12_reference_shard_lookup_under_faults : forall size lg, permitted size lg ->
+  forall H : bytes -> bytes, (forall k, wf_bytes (H k) = true) -> (forall k, length (H k) = 8%nat) ->
+  forall fuel ops t, Forall (hop_ok H) ops -> hrun lg fuel ops = Ok t ->
+  let root := fst (serialize_node size HashMurmur3 (pad_len size) (BShard t)) in
+  forall key, exists path : list blk,
+    (N.of_nat (length path) + 1) * lg <= 64 /\
+    forall fault,
+      Read.lookup fault root (H key) key =
+      match first_fault fault path with
+      | Some (e, tr) => (Err e, tr)
+      | None => (match find (fun e => bytes_eqb (e_name e) key) (mrun ops) with Some e => Ok (e_target e) | None => Err ENotFound end, path)
+      end.
+Proof. exact ref_history_lookup_requests. Qed.
+Print Assumptions C12_reference_shard_lookup_under_faults.
+
+(* ... and iterating one with missing shards yields an entry (once) exactly when looking it up succeeds, and nothing else *)
+Theorem C12_reference_shard_iterate_under_faults : forall size lg, permitted size lg ->
+  forall H : bytes -> bytes, (forall k, wf_bytes (H k) = true) -> (forall k, length (H k) = 8%nat) ->
+  forall fuel ops t, Forall (hop_ok H) ops -> hrun lg fuel ops = Ok t ->
+  let root := fst (serialize_node size HashMurmur3 (pad_len size) (BShard t)) in
+  forall fault,
+    let evs := map snd (iterate fault root) in
+    (forall e, In e (mrun ops) -> (In (yield_of e) evs <-> fst (Read.lookup fault root (H (e_name e)) (e_name e)) = Ok (e_target e)))
+    /\ (forall k v, In (IYield k v) evs -> exists e, In e (mrun ops) /\ e_name e = k /\ e_target e = v)
+    /\ NoDup (filter is_yield evs).
+Proof. exact ref_history_iterate_under_faults. Qed.
+Print Assumptions C12_reference_shard_iterate_under_faults.
